@@ -566,6 +566,8 @@ class Engine(object):
             pc.append(f)
             if name == 'documented_semantics':
                 ex.heavy_ids.add(f.get_id())
+            if name in k.hints.get('heavy_requires', ()):
+                ex.heavy2_ids.add(f.get_id())
         env = dict(args)
         path = Path(env, h0, pc)
         if k.generator == 'H':
